@@ -139,7 +139,7 @@ def judge_raw(chk, line, out):
 
 
 def run(chk):
-    negsim.run_check(chk, "C01", [("shapes", negsim.stage_shape_scenarios), ("policy", negsim.policy_scenarios), ("deadlines", negsim.deadline_scenarios)], 500)
+    negsim.run_check(chk, "C01", [("shapes", negsim.stage_shape_scenarios), ("policy", negsim.policy_scenarios), ("deadlines", negsim.deadline_scenarios), ("reconnect", negsim.reconnect_scenarios), ("resume", negsim.resume_scenarios)], 500)
     n = 4000 if chk.tier == "thorough" else 500
     lines = mutation_lines(chk, n)
     exe = vlib.build_simworld()
